@@ -40,7 +40,7 @@ def workspace(ck, binp, d):
     q = ck.tier == "quick"
     base = ("CONSTANTS BrokenSiblingPoisons = %s AnyOrder = %s SiblingCounts = %s\nSPECIFICATION Spec\n"
             "INVARIANTS MatchesDefinition BystandersIrrelevant OnlyScriptsRun FoundAreScripts%s\nCHECK_DEADLOCK FALSE\n")
-    counts = "{0, 1, 2, 9, 10}" if q else "{0, 1, 2, 3, 4, 5, 6, 7, 8, 9, 10}"
+    counts = "{0, 1, 2, 10, 11}" if q else "{0, 1, 2, 3, 4, 5, 6, 7, 8, 9, 10, 11}"
     res, rows = tlc_emit(ck, "Workspace", base % ("FALSE", "FALSE", counts, " Emit"), "Workspace (directory contents x selection)", timeout=1500)
     # the directory is read in every order: same outcome (small directories)
     res2, _ = tlc_emit(ck, "Workspace", base % ("FALSE", "TRUE", "{0, 1, 2, 3}" if q else "{0, 1, 2, 3, 4}", ""), "Workspace (every visiting order)", timeout=1500)
@@ -60,7 +60,7 @@ def workspace(ck, binp, d):
     absorb(ck, r, "workspace", cmd=["replay-workspace", "build", "tmp"])
     ck.add("traces_validated_against_impl", len(rows))
     ck.cov["workspace_rule"] = ("Workspace model: every directory made of main.p (15 bodies: no use(), one or two use() calls naming a sibling, a "
-                                "non-script file, a directory, a name without extension, a missing name) and a subset of 10 sibling entries "
+                                "non-script file, a directory, a name without extension, a missing name) and a subset of 11 sibling entries (among them a file named just `.p`) "
                                 "(valid .p / .ppl, unparsable, check-failing, link-failing, using another sibling, using main.p, notes.txt, "
                                 "a.p.bak, a directory named sub.p) x 9 selections; TLC checks that the step machine (entries classified one "
                                 "by one, in every order for small directories) computes the declarative outcome and that entries the selection "
